@@ -35,11 +35,11 @@ func (c03) Plan(tier string) []mon.RunSpec {
 	}
 	return []mon.RunSpec{{Flavour: "plain"}}
 }
-func (c03) CaseCPUBudget(string) float64 { return 120 }
+func (c03) CaseCPUBudget(string) float64 { return 300 }
 func (c03) Assumptions() []string {
 	return []string{
 		"the permissive reference inflater is the most liberal reading of RFC 1951 (upper bound on acceptance and on bytes); compress/flate is the lower bound; the two are cross-checked on every input",
-		"termination is decided by a per-case CPU-time budget (120 CPU-seconds where a legitimate case needs milliseconds)",
+		"termination is decided by a per-case CPU-time budget (300 CPU-seconds, scaled for sanitizer builds, where a legitimate case needs milliseconds; children run with GOMAXPROCS=2 so that idle scheduler spinning cannot inflate it)",
 	}
 }
 
@@ -79,6 +79,35 @@ func c03Gen(r *gen.Rand, i int) c03Input {
 			st = append(st, r.Bytes(r.Range(1, 64))...)
 		}
 		return c03Input{B: st, Kind: "fault:" + f, Desc: d}
+	case 7:
+		// small dynamic blocks with 1-2 bit flips inside the header and then a
+		// cut anywhere: the header reader's own end-of-input and validity tests
+		// meet within a few bytes
+		s := synth.NewStream(r)
+		toks := synth.RandomTokens(r, 0, r.Range(0, 12), "mixed")
+		o := synth.CodeOpts{MaxLit: r.Range(1, 15), MaxDist: r.Range(1, 15), ExtraLit: r.Pick(0, 0, 3, 40, 285), ExtraDist: r.Pick(0, 0, 2, 29), FullHLIT: r.Bool()}
+		lit, dist := synth.LengthsFor(r, toks, o)
+		sp := synth.NewDynSpec()
+		sp.LitLens, sp.DistLens = lit, dist
+		sp.RLE = []string{"greedy", "none", "random"}[r.Intn(3)]
+		sp.Cross = r.Bool()
+		s.Dynamic(r.Bool(), toks, sp, true)
+		b := append([]byte(nil), s.W.Bytes()...)
+		desc := "header-hostile " + fmt.Sprint(s.Desc)
+		for k := r.Range(1, 2); k > 0 && len(b) > 0; k-- {
+			pos := r.Intn(len(b))
+			bit := uint(r.Intn(8))
+			b[pos] ^= 1 << bit
+			desc += fmt.Sprintf(" flip@%d.%d", pos, bit)
+		}
+		if r.Chance(2, 3) && len(b) > 0 {
+			k := r.Intn(len(b) + 1)
+			b = b[:k]
+			desc += fmt.Sprintf(" cut@%d", k)
+		} else if r.Bool() {
+			b = append(b, make([]byte, 40)...)
+		}
+		return c03Input{B: b, Kind: "header-hostile", Desc: desc}
 	default:
 		vs := RandomValidStream(r, 20000)
 		if len(vs.S) == 0 {
